@@ -69,7 +69,7 @@ Definition undecZ (l : bytes) : Z :=
   end.
 
 (* ---------- numbers: canonical form  z / 2^k  with k = 0 or z odd ---------- *)
-Fixpoint strip (p : positive) (k : nat) : positive * nat :=
+Fixpoint strip (p : positive) (k : nat) {struct k} : positive * nat :=
   match k with
   | O => (p, O)
   | S k' => match p with xO p' => strip p' k' | _ => (p, k) end
